@@ -207,7 +207,8 @@ def check_build_join_schema(ctx):
     FIELDS = 'arrow_schema::schema::Schema::fields'
     FNEW = 'arrow_schema::field::Field::new'
     for jtv in enum_domain(f, JT, True):
-        ex = Explorer(f, inline_depth=2, watch=(FIELDS, FNEW), inline_only=(BJS,))
+        # the per-side field selection may live in closures of build_join_schema or in private helpers next to it
+        ex = Explorer(f, inline_depth=2, watch=(FIELDS, FNEW), inline_only=(BJS.rsplit('::', 1)[0] + '::',))
         outs = ex.run(rec, [R(sym('left')), R(sym('right')), jtv])
         jt = strip(jtv).name
         sides = set()
